@@ -5,9 +5,13 @@ use std::marker::PhantomData;
 use std::mem;
 use std::ptr;
 use std::sync::atomic::Ordering::*;
+#[cfg(not(multiqueue2_verif))]
 use std::sync::atomic::{fence, AtomicUsize};
+#[cfg(multiqueue2_verif)]
+use crate::verif_hooks::{fence, yield_now, AtomicUsize};
 use std::sync::mpsc::{RecvError, SendError, TryRecvError, TrySendError};
 use std::sync::Arc;
+#[cfg(not(multiqueue2_verif))]
 use std::thread::yield_now;
 
 use crate::alloc;
@@ -22,7 +26,10 @@ use crate::read_cursor::{ReadCursor, Reader};
 
 extern crate atomic_utilities;
 extern crate futures;
+#[cfg(not(multiqueue2_verif))]
 extern crate parking_lot;
+#[cfg(multiqueue2_verif)]
+use crate::verif_hooks::pl as parking_lot;
 extern crate smallvec;
 
 use self::futures::task::{current, Task};
@@ -515,6 +522,8 @@ impl<RW: QueueRW<T>, T> InnerRecv<RW, T> {
     pub fn recv(&self) -> Result<T, RecvError> {
         self.examine_signals();
         loop {
+            #[cfg(multiqueue2_verif)]
+            crate::verif_hooks::spin_loop();
             match self.queue.try_recv(&self.reader) {
                 Ok(v) => return Ok(v),
                 Err((_, TryRecvError::Disconnected)) => return Err(RecvError),
@@ -544,6 +553,8 @@ impl<RW: QueueRW<T>, T> InnerRecv<RW, T> {
     pub fn recv_view<R, F: FnOnce(&T) -> R>(&self, mut op: F) -> Result<R, (F, RecvError)> {
         self.examine_signals();
         loop {
+            #[cfg(multiqueue2_verif)]
+            crate::verif_hooks::spin_loop();
             match self.queue.try_recv_view(op, &self.reader) {
                 Ok(v) => return Ok(v),
                 Err((o, _, TryRecvError::Disconnected)) => return Err((o, RecvError)),
@@ -784,6 +795,8 @@ impl<RW: QueueRW<T>, T> Stream for &FutInnerRecv<RW, T> {
     fn poll(&mut self) -> Poll<Option<T>, ()> {
         self.reader.examine_signals();
         loop {
+            #[cfg(multiqueue2_verif)]
+            crate::verif_hooks::spin_loop();
             match self.reader.queue.try_recv(&self.reader.reader) {
                 Ok(msg) => {
                     self.prod_wait.notify_all();
@@ -819,6 +832,8 @@ impl<RW: QueueRW<T>, R, F: for<'r> FnMut(&T) -> R, T> Stream for FutInnerUniRecv
     fn poll(&mut self) -> Poll<Option<R>, ()> {
         self.reader.examine_signals();
         loop {
+            #[cfg(multiqueue2_verif)]
+            crate::verif_hooks::spin_loop();
             let opref = &mut self.op;
             match self.reader.queue.try_recv_view(opref, &self.reader.reader) {
                 Ok(msg) => {
@@ -854,7 +869,10 @@ impl FutWait {
 
     pub fn fut_wait(&self, seq: usize, at: &AtomicUsize, wc: &AtomicUsize) -> bool {
         if self.spin(seq, at, wc) && self.park(seq, at, wc) {
+            #[cfg(not(multiqueue2_verif))]
             ::std::thread::sleep(::std::time::Duration::from_millis(100));
+            #[cfg(multiqueue2_verif)]
+            crate::verif_hooks::sleep(::std::time::Duration::from_millis(100));
             true
         } else {
             false
